@@ -171,7 +171,7 @@ pub fn escape_table(cx: &mut Ctx, refd: &serde_json::Value, rule: &str) {
         Some(po) => {
             let t = sm::tsx(&po.block);
             let maxd = refd["octal"]["max_digits"].as_u64().unwrap();
-            let loop_ok = t.contains(&format!("whileoctet_content.len()<{}{{matchself.peek(){{Some('0'..='7')=>octet_content.push(self.next_char().unwrap()),_=>break,}}}}", maxd));
+            let loop_ok = t.contains(&format!("whileoctet_content.len()<{}{{matchself.peek(){{Some('0'..='7')=>octet_content.push(self.next_char().unwrap()),_=>break}}}}", maxd));
             let conv_ok = t.ends_with("letvalue=u32::from_str_radix(&octet_content,8).unwrap();char::from_u32(value).unwrap()}");
             if loop_ok {
                 cx.ok(rule, "parse_octet reads at most 3 octal digits, each peeked as '0'..='7' before it is consumed");
@@ -706,7 +706,7 @@ fn value_conversions(cx: &mut Ctx) {
         ("decimal-int", "letvalue=value_text.parse::<BigInt>().unwrap();", "decimal integers: value_text.parse::<BigInt>()"),
         ("float", "letvalue=f64::from_str(&value_text).map_err(", "floats: f64::from_str(&value_text)"),
         ("imag-int", "letimag=f64::from_str(&value_text).unwrap();", "imaginary integer literals: f64::from_str(&value_text)"),
-        ("complex-value", "Tok::Complex{imag:value,real:0.0,}", "the float path's imaginary literal carries the parsed value with real 0.0"),
+        ("complex-value", "Tok::Complex{imag:value,real:0.0}", "the float path's imaginary literal carries the parsed value with real 0.0"),
     ];
     // radix_run pushes every digit it takes: through take_number (`Some(c) => push(c)`) or with the digit test in place
     let via_helper = t.contains("matchself.take_number(radix){Some(c)=>{value_text.push(c);},");
@@ -745,19 +745,19 @@ fn lex_string_order(cx: &mut Ctx) {
     let Some(lx) = lr::load_lexer(cx, rule) else { return };
     let Some(f) = lr::lexer_method(&lx, "lex_string") else { return cx.anchor_missing(rule, "lex_string") };
     let t = sm::tsx(&f.block);
-    let p_bs = t.find("matchc{'\\\\'=>matchself.next_char(){Some(next_c)=>{string_content.push('\\\\');string_content.push(next_c);continue;},_=>{},},_=>{},}");
+    let p_bs = t.find("matchc{'\\\\'=>matchself.next_char(){Some(next_c)=>{string_content.push('\\\\');string_content.push(next_c);continue;},_=>{}},_=>{}}");
     let p_eol = t.find("ifc=='\\n'&&!triple_quoted{");
     let p_q = t.find("ifc==quote_char{");
     match (p_bs, p_eol, p_q) {
         (Some(a), Some(b), Some(c)) if a < b && b < c => cx.ok(rule, "order in the scan loop: backslash pair, end-of-line test, closing-quote test"),
         _ => cx.fail(rule, &format!("{}/order", rule), &lx.loc(f), "the backslash branch does not precede the end-of-line and closing-quote tests (an escaped quote or line break could terminate the literal)"),
     }
-    if t.contains("lettriple_quoted=ifself.window[..2]==[Some(quote_char);2]{self.next_char();self.next_char();true}else{false};") {
+    if t.contains("lettriple_quoted=ifself.window[0]==Some(quote_char)&&self.window[1]==Some(quote_char){self.next_char();self.next_char();true}else{false};") {
         cx.ok(rule, "opening: two further quote characters => triple quoted (both consumed)");
     } else {
         cx.fail(rule, &format!("{}/triple-open", rule), &lx.loc(f), "triple-quote detection at the opening is not `window[..2] == [Some(quote_char); 2]` with two consumptions");
     }
-    if t.contains("iftriple_quoted{ifself.window[..2]==[Some(quote_char);2]{self.next_char();self.next_char();break;}}else{break;}") {
+    if t.contains("iftriple_quoted{ifself.window[0]==Some(quote_char)&&self.window[1]==Some(quote_char){self.next_char();self.next_char();break;}}else{break;}") {
         cx.ok(rule, "closing: a quote ends a plain literal; a triple-quoted one needs two more quote characters");
     } else {
         cx.fail(rule, &format!("{}/triple-close", rule), &lx.loc(f), "the closing-quote logic is not `triple ? (two more quotes => consume both, break) : break`");
@@ -767,7 +767,7 @@ fn lex_string_order(cx: &mut Ctx) {
     } else {
         cx.fail(rule, &format!("{}/content", rule), &lx.loc(f), "content characters are not pushed exactly once each");
     }
-    if t.contains("lettok=Tok::String{kind,triple_quoted,value:string_content,};") {
+    if t.contains("lettok=Tok::String{kind,triple_quoted,value:string_content};") {
         cx.ok(rule, "the token carries the content, the kind and the triple-quote flag");
     } else {
         cx.fail(rule, &format!("{}/token", rule), &lx.loc(f), "Tok::String is not built from (string_content, kind, triple_quoted)");
